@@ -125,6 +125,9 @@ func (fg *FnGen) callWrites(x ssa.CallInstruction, set map[string]bool, all *boo
 		}
 		if len(ct.Modifies) > 0 {
 			for _, m := range ct.Modifies {
+				if strings.HasPrefix(m, "bytes(") {
+					m = "MemB"
+				}
 				set[m] = true
 			}
 			return
@@ -396,10 +399,34 @@ func (fg *FnGen) applyContract(fr *Frame, ct *Contract, d callDesc, args []*Term
 	if !ct.Pure {
 		if len(ct.Modifies) > 0 {
 			set := map[string]bool{}
+			var byteTargets []*Term
 			for _, m := range ct.Modifies {
+				if strings.HasPrefix(m, "bytes(") && strings.HasSuffix(m, ")") {
+					ce, err := ParseCE(m[6 : len(m)-1])
+					if err == nil {
+						if v, err2 := env.eval(ce); err2 == nil && v.T != nil && v.T.Sort == SSlice {
+							byteTargets = append(byteTargets, v.T)
+							continue
+						}
+					}
+					fg.bindFailure(fmt.Sprintf("modifies@%s", d.short), fmt.Errorf("cannot evaluate %s", m), pos)
+					set["MemB"] = true
+					continue
+				}
 				set[m] = true
 			}
 			st2 = fg.havocSet(st, set)
+			if len(byteTargets) > 0 && !set["MemB"] {
+				hs := ArraySort(SInt, SString)
+				mem := fg.lookup(st2, "MemB", hs)
+				for _, bt := range byteTargets {
+					nb := fg.freshConst(fr.prefix+name+"_mod", SString)
+					fg.assumeIf(reach, Eq(StrLen(nb), StrLen(Select(mem, SBase(bt)))))
+					mem = Store(mem, SBase(bt), nb)
+				}
+				st2 = st2.clone()
+				fg.set(st2, "MemB", hs, mem)
+			}
 		} else {
 			st2 = fg.havocAll(st)
 		}
@@ -582,7 +609,7 @@ func (fg *FnGen) appendBuiltin(fr *Frame, c *ssa.CallCommon, args []*Term, st *S
 	mn, ms, isB := fg.memVar(sT.Elem())
 	mem := fg.lookup(st, mn, ms)
 	newBase := fg.freshConst(fr.prefix+name+"_nb", SInt)
-	fg.assume(Gt(newBase, IntLit(0)))
+	fg.assume(Gt(newBase, fg.refLimit()))
 	for _, a := range fg.allocs {
 		fg.assume(Neq(newBase, a))
 	}
@@ -750,6 +777,11 @@ func (fg *FnGen) native(fr *Frame, d callDesc, c *ssa.CallCommon, args []*Term, 
 		fg.assume(And(Gt(ITag(e), IntLit(0)), Gt(IVal(e), IntLit(0)), Lt(IVal(e), IntLit(1000000))))
 		return one(e)
 	case "fmt.Sprintf", "fmt.Sprint":
+		if d.full == "fmt.Sprintf" {
+			if r := fg.sprintf(args[0], args[1], st); r != nil {
+				return one(r)
+			}
+		}
 		return one(fresh(SString))
 	case "errors.Is":
 		r := App("errIs", SBool, args[0], args[1])
@@ -918,4 +950,69 @@ func (fg *FnGen) monitorSend(fr *Frame, x *ssa.Send, st *State, reach *Term) {
 	}
 	d.full = d.short
 	fg.monitorBefore(fr, d, []*Term{fg.val(fr, x.X)}, st, reach, x.Pos())
+}
+
+// sprintf models fmt.Sprintf exactly for literal formats made of text, %s / %v on string operands and %d / %v on
+// integer operands, when the variadic slice was built in this function (the operands are then syntactically known).
+func (fg *FnGen) sprintf(format, argv *Term, st *State) *Term {
+	if format.Kind != KStrLit {
+		return nil
+	}
+	mem := fg.lookup(st, "Mem:Iface", ArraySort(SInt, ArraySort(SInt, SIface)))
+	arr := Select(mem, SBase(argv))
+	var parts []*Term
+	f := format.Str
+	argi := 0
+	lit := ""
+	strTag := int64(fg.g.ti.typeID(types.Typ[types.String]))
+	for i := 0; i < len(f); i++ {
+		if f[i] != '%' {
+			lit += string(f[i])
+			continue
+		}
+		if i+1 >= len(f) {
+			return nil
+		}
+		i++
+		if f[i] == '%' {
+			lit += "%"
+			continue
+		}
+		if f[i] != 's' && f[i] != 'v' && f[i] != 'd' {
+			return nil
+		}
+		el := Select(arr, Add(SOff(argv), IntLit(int64(argi))))
+		argi++
+		if el.Kind != KApp || el.Op != "mk-iface" || !el.Args[0].isSmallInt() {
+			return nil
+		}
+		v := el.Args[1]
+		if v.Kind != KApp || !strings.HasPrefix(v.Op, "boxid_") {
+			return nil
+		}
+		operand := v.Args[0]
+		if lit != "" {
+			parts = append(parts, StrLit(lit))
+			lit = ""
+		}
+		switch {
+		case operand.Sort == SString && el.Args[0].Int == strTag && f[i] != 'd':
+			parts = append(parts, operand)
+		case operand.Sort == SString && f[i] != 'd':
+			// named string types print the same way
+			parts = append(parts, operand)
+		case operand.Sort == SInt && f[i] != 's':
+			parts = append(parts, Ite(Ge(operand, IntLit(0)), App("str.from_int", SString, operand), StrCat(StrLit("-"), App("str.from_int", SString, Neg(operand)))))
+		default:
+			return nil
+		}
+	}
+	if lit != "" {
+		parts = append(parts, StrLit(lit))
+	}
+	if !(SLen(argv).isSmallInt() && SLen(argv).Int == int64(argi)) {
+		return nil
+	}
+	fg.g.useTrusted("built-in contract: fmt.Sprintf with a literal format of text and %s/%v/%d on string/int operands is concatenation")
+	return StrCat(parts...)
 }
